@@ -36,21 +36,12 @@ def random_access_partial_statement : Prop :=
     endsWithUnquotedDelim d q text = false → ∀ r c : Nat,
       (((parse d q n text).row r).bind fun st => (parse d q n text).get st c) = cellSpec d q n text r c
 
-/-- **Finding F7, on the model of the code**: the unrestricted `fields_eq` is false.  For the text
-`a,` (CSV configuration) iteration yields the single field `a`, the spec yields `a` and the empty
-field; with the record separator appended (`a,\n`) the code yields both. -/
-theorem fields_eq_full_refuted : ¬ fields_eq_full_statement := by
-  intro h
-  have := h 0x2c#8 0x22#8 0x0a#8 (by decide) (by decide) (by decide) [0x61#8, 0x2c#8]
-  revert this
-  decide +kernel
-
-example : (parse 0x2c#8 0x22#8 0x0a#8 [0x61#8, 0x2c#8]).rows = [[[0x61#8]]] := by decide +kernel
+/-- Regression for the repaired finding F7 (repo commit 86e05db), on the model of the fixed code:
+the text `a,` yields the field `a` and the final empty field, exactly like `a,\n`. -/
+example : (parse 0x2c#8 0x22#8 0x0a#8 [0x61#8, 0x2c#8]).rows = [[[0x61#8], []]] := by decide +kernel
 example : rowsSpec 0x2c#8 0x22#8 0x0a#8 [0x61#8, 0x2c#8] = [[[0x61#8], []]] := by decide
 example : (parse 0x2c#8 0x22#8 0x0a#8 [0x61#8, 0x2c#8, 0x0a#8]).rows = [[[0x61#8], []]] := by decide +kernel
-example : endsWithUnquotedDelim 0x2c#8 0x22#8 [0x61#8, 0x2c#8] = true := by decide
-/-- `DsvRow::get(1)` on the same text: `None` instead of the empty field. -/
-example : (parse 0x2c#8 0x22#8 0x0a#8 [0x61#8, 0x2c#8]).get 0 1 = none
+example : (parse 0x2c#8 0x22#8 0x0a#8 [0x61#8, 0x2c#8]).get 0 1 = some []
     ∧ cellSpec 0x2c#8 0x22#8 0x0a#8 [0x61#8, 0x2c#8] 0 1 = some [] := by decide +kernel
 
 /-- `append_separator_invariant`, over the splitting spec (`_partial`: for the cursor model it
